@@ -33,6 +33,9 @@
 #include <occa/internal/lang/modes/metal.hpp>
 #include <occa/internal/lang/modes/dpcpp.hpp>
 
+#include <occa/internal/lang/operator.hpp>
+
+#include <dlfcn.h>
 #include <cstdint>
 #include <cstdio>
 #include <cstdlib>
@@ -44,6 +47,37 @@ using namespace occa::lang;
 
 enum { M_SERIAL = 0, M_OPENMP, M_CUDA, M_HIP, M_OPENCL, M_METAL, M_DPCPP, M_COUNT };
 static const char *M_NAMES[M_COUNT] = {"serial", "openmp", "cuda", "hip", "opencl", "metal", "dpcpp"};
+
+// ---- throughput only -------------------------------------------------------------------------------------------------
+// Every tokenizer_t constructor calls getOperators(), which adds ~75 operators to a trie that re-freezes itself after every
+// add (quadratic); preprocessor_t::init() builds ~25 tokenizers (one per builtin macro) and runs in the parser constructor
+// and again in clear(): ~100 ms per input under ASan, all of it before the first input byte is read.  The executable
+// interposes getOperators(): the first call runs libocca's own function (dlsym RTLD_NEXT) into a cache, every call then
+// copies the cache (trie::operator= yields the same frozen trie).  The only caller passes a fresh, empty trie
+// (tokenizer_t::setup), so the result is identical.  Build with -DC16_NO_FASTOPS to switch this off.
+#ifndef C16_NO_FASTOPS
+namespace occa {
+  namespace lang {
+    void getOperators(operatorTrie &operators) {
+      typedef void (*fn_t)(operatorTrie&);
+      static operatorTrie *cache = NULL;
+      if (!cache) {
+        fn_t real = (fn_t) dlsym(RTLD_NEXT, "_ZN4occa4lang12getOperatorsERNS_4trieIPKNS0_10operator_tEEE");
+        if (!real) { fprintf(stderr, "C16: occa::lang::getOperators not found in libocca (signature changed?)\n"); _exit(3); }
+        cache = new operatorTrie();
+        real(*cache);
+        cache->freeze();
+      }
+      if (!operators.isEmpty()) {      // not the call this shortcut was written for: do what libocca does
+        fn_t real = (fn_t) dlsym(RTLD_NEXT, "_ZN4occa4lang12getOperatorsERNS_4trieIPKNS0_10operator_tEEE");
+        real(operators);
+        return;
+      }
+      operators = *cache;
+    }
+  }
+}
+#endif
 
 #ifndef C16_NEST_CAP
 #define C16_NEST_CAP 200
@@ -186,6 +220,7 @@ extern "C" int LLVMFuzzerInitialize(int *, char ***) {
       if ((q == known || q[-1] == ',') && (q[L] == 0 || q[L] == ',')) g_knownOn[k] = true;
   }
   g_nt = (uint64_t*) calloc(NT_SLOTS, sizeof(uint64_t));
+  { tokenizer_t warm; (void) warm; }   // fills the operator cache outside the first input
   atexit(dumpStats);
   return 0;
 }
